@@ -1,6 +1,7 @@
 /- Line-protocol driver for C02 (cross-reference resolution). -/
 import PdfVerif.Spec.Xref
 import PdfVerif.Spec.XrefWrite
+import PdfVerif.Spec.XrefHist
 
 open PdfVerif PdfVerif.Xref PdfVerif.Gen.Xref
 
@@ -12,6 +13,8 @@ structure St where
   ends : List (Nat × Nat) := []
   doc : Option (List (Xref.Section × Trailer)) := none
   items : List Item := []
+  wobjs : List WObj := []
+  wtrs : List (Nat × Option Nat) := []
 
 def hexNat (s : String) : Option Nat :=
   s.toList.foldl (fun acc c => match acc, hexVal c with
@@ -94,12 +97,7 @@ def showSection (s : Xref.Section) : String :=
 def xrefsOf (st : St) : List Xref.Section := (st.doc.getD []).map (·.1)
 
 def openDoc (st : St) (bufsiz : Nat) : Except Err (List (Xref.Section × Trailer)) :=
-  match findXref bufsiz st.data with
-  | .error e => .error e
-  | .ok pos =>
-    match readXrefFrom ⟨st.data, st.secs, st.objs⟩ (st.secs.length + 2) pos ([], []) with
-    | .ok r => .ok r.1
-    | .error e => .error e
+  openPhys ⟨st.data, st.secs, st.objs⟩ bufsiz
 
 def parseTEntry (s : String) : Option TEntry :=
   match s.splitOn "/" with
@@ -222,6 +220,83 @@ def step (st : St) (line : String) : St × String :=
     match eol?, ee?, (if subs == "-" then some [] else (subs.splitOn ";").mapM parseSub) with
     | some eol, some ee, some subs => (st, hexOrDash (renderTable eol ee subs))
     | _, _, _ => (st, "bad-op")
+  | ["wtr", root, info] =>
+    match root.toNat?, optNat info with
+    | some r, some i => ({ st with wtrs := st.wtrs ++ [(r, i)] }, "ok")
+    | _, _ => (st, "bad-op")
+  | ["wobj", "d", sub, num, v, gap, len, gen] =>
+    match sub.toNat?, num.toNat?, parseVal v, gap.toNat?, len.toNat?, gen.toNat? with
+    | some sb, some n, some v, some gp, some ln, some g =>
+      ({ st with wobjs := st.wobjs ++ [⟨n, v, .direct gp ln g, sb⟩] }, "ok")
+    | _, _, _, _, _, _ => (st, "bad-op")
+  | ["wobj", "m", sub, num, v, c, idx] =>
+    match sub.toNat?, num.toNat?, parseVal v, c.toNat?, idx.toNat? with
+    | some sb, some n, some v, some c, some i => ({ st with wobjs := st.wobjs ++ [⟨n, v, .member c i, sb⟩] }, "ok")
+    | _, _, _, _, _ => (st, "bad-op")
+  | ["q.written", start, bound] =>
+    -- the Lean file writer (Spec/XrefHist) on this file's plan: side conditions of C02_written_rep,
+    -- and its output against the object store, the sections pdfminer's model loaded, and the history
+    match st.doc, start.toNat?, bound.toNat? with
+    | some _, some s0, some b =>
+      let f : WFile := ⟨s0, st.wobjs, st.wtrs⟩
+      let store := f.store
+      let okStore := store.length == st.objs.length &&
+        store.all (fun rec => lookupNat st.objs rec.1 == some rec.2)
+      let secsOld := (xrefsOf st).reverse
+      let ents := f.ents
+      let okSecs := secsOld.length == ents.length &&
+        (secsOld.zip ents).all (fun p => secListsB b p.1 p.2)
+      let h := f.history
+      let okHist := h.length == st.hist.length &&
+        (h.zip st.hist).all (fun p => p.1.root == p.2.root && p.1.info == p.2.info &&
+          (List.range b).all (fun n => p.1.lookup n == p.2.lookup n))
+      (st, s!"{f.ok} {okStore} {okSecs} {okHist}")
+    | _, _, _ => (st, "bad-op")
+  | ["q.chain"] =>
+    -- executable hypothesis of C02_chain_checked for this file, and its conclusion against the loaded document
+    match st.doc with
+    | some d =>
+      match findXref 4096 st.data with
+      | .ok start =>
+        match chainOf ⟨st.data, st.secs, st.objs⟩ (st.secs.length + 2) (some start) with
+        | some (ps, l) =>
+          (st, s!"{nodupNat ps} {decide (ps.length < st.secs.length + 2)} {l.length == d.length && (l.map (·.2.prev)) == (d.map (·.2.prev))}")
+        | none => (st, "no-chain")
+      | .error _ => (st, "no-startxref")
+    | none => (st, "bad-op")
+  | ["q.tablelists", k, subs] =>
+    -- hypothesis of C02_table_lists for (sub-)revision k of the written file and the subsections of its table
+    match k.toNat?, (if subs == "-" then some [] else (subs.splitOn ";").mapM parseSub) with
+    | some k, some subs =>
+      let f : WFile := ⟨0, st.wobjs, st.wtrs⟩
+      (st, match f.ents[k]? with
+        | some ents => toString (sameAssocB (flatSubs subs) (entsInt ents))
+        | none => "no-such-revision")
+    | _, _ => (st, "bad-op")
+  | ["q.streamlists", k, index, rows] =>
+    -- hypotheses of C02_stream_lists for (sub-)revision k of the written file and the rows of its stream
+    match k.toNat?, csvNat index, (if rows == "-" then some [] else (rows.splitOn ",").mapM parseRow) with
+    | some k, some ia, some rows =>
+      let f : WFile := ⟨0, st.wobjs, st.wtrs⟩
+      let ranges := choplist2 ia
+      (st, match f.ents[k]? with
+        | some ents => s!"{streamListsB ranges rows ents} {decide (sumCounts ranges ≤ rows.length)}"
+        | none => "no-such-revision")
+    | _, _, _ => (st, "bad-op")
+  | ["q.tail", ts, eol, w, n] =>
+    let eol? : Option LineEol := if eol == "lf" then some .lf else if eol == "crlf" then some .crlf else if eol == "cr" then some .cr else none
+    let ts? : Option TailStyle := if ts == "normal" then some .plain else if ts == "noeol" then some .noeol
+      else if ts == "blank" then some .blank else if ts == "spaces" then some .spaces else none
+    match ts?, eol?, w.toNat?, n.toNat? with
+    | some ts, some eol, some w, some n =>
+      -- the bytes `C02_find_xref_written` speaks about, whether the file ends with them after an EOL
+      -- byte (its hypotheses), and what the model's `find_xref` returns on the file
+      let t := renderTail ts eol w n
+      let k := st.data.length - t.length
+      let fits := decide (t.length < st.data.length) && st.data.drop k == t &&
+        (match st.data[k - 1]? with | some e => isEol e | none => false) && decide (0 < w) && decide (n < 10 ^ w)
+      (st, s!"{hexOrDash t} {fits}")
+    | _, _, _, _ => (st, "bad-op")
   | ["q.encrows", w, rows] =>
     match csvNat w, (if rows == "-" then some [] else (rows.splitOn ",").mapM parseRow) with
     | some [w1, w2, w3], some rows => (st, hexOrDash (encodeRows w1 w2 w3 rows))
